@@ -75,7 +75,8 @@ class C17(Prop):
         shape = rng.choice(['plain', 'unused-declared', 'undeclared-supplied', 'permuted', 'plain'])
         extra = 'u_extra'
         data = lang.gen_trace(rng, names + [extra], n)
-        return {'formula': f, 'kind': kind, 'data': data, 'shape': shape, 'perm': rng.random()}
+        return {'formula': f, 'kind': kind, 'data': data, 'shape': shape, 'perm': rng.random(),
+                'feed': rng.choice(['disjoint', 'disjoint', 'repeat-frontier', 'frontier-only'])}
 
     def judge(self, case):
         v = Verdict()
@@ -98,6 +99,8 @@ class C17(Prop):
         v.nontrivial = lang.has_stateful(f)
         v.info['%s:%s' % (kind, 'supported' if sup else 'unsupported')] = 1
         v.info['shape:' + shape] = 1
+        if kind.startswith('ct_on'):
+            v.info['feed:' + case.get('feed', 'disjoint')] = 1
         v.info['n:%s' % ('1' if n == 1 else '2+')] = 1
         declared = list(names)
         supplied = list(names)
@@ -137,7 +140,13 @@ class C17(Prop):
                 got_value = True
             else:
                 half = max(1, n // 2)
-                for (a, b) in ((0, half), (half, n)):
+                feed = case.get('feed', 'disjoint')
+                chunks = [(0, half), (half, n)]
+                if feed == 'repeat-frontier' and half < n:
+                    chunks = [(0, half), (half - 1, n)]              # second batch re-sends the frontier sample
+                elif feed == 'frontier-only':
+                    chunks = [(0, half), (half - 1, half), (half, n)]  # a batch with nothing but the frontier sample
+                for (a, b) in chunks:
                     if a >= b:
                         continue
                     args = [[k, [[float(i), data[k][i]] for i in range(a, b)]] for k in supplied]
